@@ -26,7 +26,7 @@ import traceback
 import warnings
 
 VERIF = os.path.dirname(os.path.dirname(os.path.abspath(__file__)))
-REPO = '/repo'
+REPO = os.environ.get('VERIF_REPO', '/repo')
 EXIT_OK, EXIT_VIOLATION, EXIT_HARNESS = 0, 1, 3
 
 
@@ -308,8 +308,11 @@ def main(argv=None):
         wall_s=round(wall, 2),
         violations=violations,
     )
-    os.makedirs(os.path.join(VERIF, 'evidence'), exist_ok=True)
-    with open(os.path.join(VERIF, 'evidence', f'{pid}.json'), 'w') as fh:
+    # (self-tests against a scratch tree write their evidence elsewhere)
+    evdir = os.environ.get('VERIF_EVIDENCE_DIR') or os.path.join(
+        VERIF, 'evidence')
+    os.makedirs(evdir, exist_ok=True)
+    with open(os.path.join(evdir, f'{pid}.json'), 'w') as fh:
         json.dump(jsonable(ev), fh, indent=1)
     for ln in lines:
         print(ln)
